@@ -54,9 +54,16 @@ def main():
                 "INVARIANTS RaceFree OutcomesOk NoDeadlock Bounded\nCHECK_DEADLOCK FALSE\n")
             # TLC and SANY unpack their standard modules into java.io.tmpdir: keep that inside the scratch area
             env = dict(os.environ, JAVA_TOOL_OPTIONS="-Djava.io.tmpdir=" + work)
-            p = subprocess.run(["tlc", "-workers", "4", "-metadir", os.path.join(work, "states" + str(k)), mc + ".tla"], cwd=work, env=env, capture_output=True, text=True, timeout=600)
+            try:
+                p = subprocess.run(["tlc", "-workers", "4", "-metadir", os.path.join(work, "states" + str(k)), mc + ".tla"], cwd=work, env=env, capture_output=True, text=True, timeout=900)
+            except subprocess.TimeoutExpired:
+                # a machine too busy to finish TLC in time: no comparison for this configuration, not an error
+                results.append({"chunks": chunks, "avail": avail, "ops": ops, "skipped": "TLC did not finish within 900 s"})
+                continue
             out = p.stdout + p.stderr
-            m = re.search(r"(\d+) distinct states found", out)
+            # the last such line is the final count (a slow run also prints progress lines)
+            found = re.findall(r"(\d+) distinct states found, 0 states left on queue", out)
+            m = re.match(r"(\d+)", found[-1]) if found else None
             viol = ("Invariant" in out and "is violated" in out) or "Error:" in out
             tlc_states = int(m.group(1)) if m else None
             q = subprocess.run([protomc, "explore", "--chunks", str(chunks), "--avail", str(avail), "--ops", ops], capture_output=True, text=True, timeout=600)
